@@ -31,10 +31,17 @@ AnswerKinds(n) ==
    THEN {<<"err", 0>>, <<"skip", 0>>, <<"exit", 0>>} \cup {<<"retry", r>> : r \in 0..MaxRetry}
    ELSE {})
 
+\* feature "partial": an answer may carry only some of the declared result fields (the others
+\* keep their values)
+PayloadsX(i, n) ==
+  IF "partial" \in Features /\ Len(n.writes) >= 2
+  THEN UNION {{[w \in U |-> f[w]] : f \in Payloads(i, n)} : U \in (SUBSET SeqRange(n.writes)) \ {{}}}
+  ELSE Payloads(i, n)
+
 XAnswer ==
   /\ Len(h) < MaxSteps
   /\ (Len(h) > 0 => h[Len(h)].op # "deliverc")
-  /\ \E t \in ReqToks(s) : \E pl \in Payloads(s.p, Node(s.p, t.at)) :
+  /\ \E t \in ReqToks(s) : \E pl \in PayloadsX(s.p, Node(s.p, t.at)) :
      \E kn \in AnswerKinds(Node(s.p, t.at)) :
         /\ s' = CloseQuiet(AnswerAny(s, t, pl, kn[1], kn[2]))
         /\ h' = Append(h, [op |-> "answer", node |-> t.at, occ |-> t.occ, vars |-> pl,
